@@ -1469,14 +1469,16 @@ Proof.
   - (* ELike *)
     apply andb_prop in Hinv as [Hi1 Hi2]. destruct (IHe1 Hi1) as ((t1 & H1) & _). destruct (IHe2 Hi2) as ((t2 & H2) & _).
     assert (Hp : PP (ELike e1 e2 n ci a)) by (as_one like_emits; eassumption).
-    qq; [exact Hp|intros ? ?; exact Hp| |exact I|pops].
-    intros name sc lbl. as_one like_with_alias_emits; eassumption.
+    qq; [exact Hp| | |exact I|pops].
+    + intros alias lbl. as_one like_with_alias_emits; eassumption.
+    + intros name sc lbl. as_one like_with_alias_emits; eassumption.
   - (* EBetween *)
     apply andb_prop in Hinv as [Hinv Hi3]. apply andb_prop in Hinv as [Hi1 Hi2].
     destruct (IHe1 Hi1) as ((t1 & H1) & _). destruct (IHe2 Hi2) as ((t2 & H2) & _). destruct (IHe3 Hi3) as ((t3 & H3) & _).
     assert (Hp : PP (EBetween e1 e2 e3 n)) by (as_one between_emits; eassumption).
-    qq; [exact Hp|intros ? ?; exact Hp| |exact I|pops].
-    intros name sc lbl. as_one between_with_alias_emits; eassumption.
+    qq; [exact Hp| | |exact I|pops].
+    + intros alias lbl. as_one between_with_alias_emits; eassumption.
+    + intros name sc lbl. as_one between_with_alias_emits; eassumption.
   - (* EIsNull *)
     destruct (IHe Hinv) as ((t1 & H1) & _).
     assert (Hall : forall a, one (fun d => explain_is_null_expr_with_alias nd a d e n)) by (intros a; as_one is_null_emits; exact H1).
@@ -1879,7 +1881,7 @@ End Alias.
 (* explainAliasedExpr has no case for these kinds: the alias is dropped, the node prints as without it *)
 Definition aliased_default (e : expr) : bool :=
   match e with
-  | ENil | EOpaque _ | ESubquery _ _ | ELike _ _ _ _ _ | EBetween _ _ _ _ | EAsterisk _ _ _ _ _
+  | ENil | EOpaque _ | ESubquery _ _ | EAsterisk _ _ _ _ _
   | EColumns _ _ _ _ _ _ | EAliased _ _ | EWith _ _ _ => true
   | _ => false
   end.
@@ -1887,6 +1889,24 @@ Definition aliased_default (e : expr) : bool :=
 Lemma aliased_default_drops_alias norm_unit d e a :
   aliased_default e = true -> enode norm_unit d (EAliased e a) = enode norm_unit d e.
 Proof. destruct e; try discriminate; reflexivity. Qed.
+
+(* BETWEEN and LIKE inside an AliasedExpr (cases of explainAliasedExpr since /repo 49bf3628f): the plain printer's text
+   with the annotation; the LikeExpr's own Alias is ignored there, the AliasedExpr's is printed *)
+Lemma aliased_between_is_plain norm_unit d e lo hi not a :
+  nonempty a = true ->
+  enode norm_unit d (EAliased (EBetween e lo hi not) a) = alias_root a (enode norm_unit d (EBetween e lo hi not)).
+Proof.
+  intros Ha. cbn [enode explain_aliased_expr].
+  exact (proj1 (between_with_alias_is_plain (enode norm_unit) a Ha d e lo hi not)).
+Qed.
+
+Lemma aliased_like_is_plain norm_unit d e p not ci own a :
+  nonempty a = true ->
+  enode norm_unit d (EAliased (ELike e p not ci own) a) = alias_root a (enode norm_unit d (ELike e p not ci [])).
+Proof.
+  intros Ha. cbn [enode explain_aliased_expr].
+  exact (proj1 (like_with_alias_is_plain (enode norm_unit) a Ha d e p not ci)).
+Qed.
 
 (* ... likewise explainWithElement for the kinds outside its switch *)
 Definition with_default (e : expr) : bool :=
